@@ -116,7 +116,15 @@ func (f *Formatter) formatBackendProperties(props []*ast.BackendProperty, nestLe
 			Operator: " = ",
 		}
 		if po, ok := prop.Value.(*ast.BackendProbeObject); ok {
-			line.Value = "{\n"
+			// comments between "=" and "{"
+			switch {
+			case len(po.Leading) == 0:
+				line.Value = "{\n"
+			case isInlineComment(po.Leading):
+				line.Value = f.formatComment(po.Leading, " ", 0) + "{\n"
+			default:
+				line.Value = f.formatComment(po.Leading, "\n", 0) + f.indent(nestLevel) + "{\n"
+			}
 			line.Value += f.formatBackendProperties(po.Values, nestLevel+1)
 			line.Value += f.indent(nestLevel) + "}"
 			// probe property is object, semicolon is not needed
